@@ -61,7 +61,9 @@ func Load(r *rt.Runtime) (rt.Value, func()) {
 	)
 	// That's not safe!
 	r.SetEnvGoFunc(env, "collectgarbage", collectgarbage, 2, false)
-	return rt.NilValue, nil
+	// A runtime that is disposed of while it has the collector stopped must not
+	// leave it stopped for the rest of the process.
+	return rt.NilValue, func() { restartGC(getGCState(r)) }
 }
 
 func ToString(t *rt.Thread, v rt.Value) (string, error) {
